@@ -8,6 +8,11 @@ import ExecModel.Basic
   always complete.  `atomic = false` is the code as found (defect D12): `dump` creates
   `<key>.h5out` and appends the datasets one by one, and the hit path ignores the "output present"
   flag of `get_output`, returning `None` for an entry whose output is not written yet.
+
+  Cancellation: a call whose future was cancelled while it was queued is taken by `lookCancelled`
+  instead of `look`: the key is computed and the directory listed, then
+  `future.set_running_or_notify_cancel()` returns False and the call is dropped — nothing is sent
+  to the worker process, nothing is written, no result is set (on a hit as on a miss).
 -/
 namespace ExecModel.Cache
 
@@ -41,6 +46,7 @@ structure State (Call K V : Type) where
   dir : Dir K V
   wk : List (Worker Call V)
   results : List (Call × Option V) := []    -- (call, value its future received); `none` = Python `None`
+  dropped : List Call := []                 -- ghost: calls whose future was cancelled while queued (never sent, written or answered)
   deriving Repr, DecidableEq
 
 inductive Label
@@ -48,6 +54,8 @@ inductive Label
   | compute (w : Nat)   -- send, receive
   | create (w : Nat)    -- in-place only: open the final name, write function and arguments
   | write (w : Nat)     -- atomic: write temp file and rename; in-place: append the output dataset; then set the result
+  | lookCancelled (w : Nat)  -- serialize + listdir for a call whose future was cancelled while queued:
+                             -- `set_running_or_notify_cancel()` is False, the call is dropped (hit or miss alike)
   deriving Repr, DecidableEq
 
 variable [DecidableEq K]
@@ -92,6 +100,14 @@ def step (atomic : Bool) (key : Call → K) (eval : Call → V) (s : State Call 
          some { s with dir := publish s.dir (key c) (some v), wk := s.wk.set w { wk with pc := .idle },
                        results := s.results ++ [(c, some v)] }
        | _ => none)
+    | none => none
+  | .lookCancelled w =>
+    match s.wk[w]? with
+    | some wk =>
+      (match wk.pc, wk.todo with
+       | .idle, c :: rest =>
+         some { s with wk := s.wk.set w { todo := rest, pc := .idle }, dropped := s.dropped ++ [c] }
+       | _, _ => none)
     | none => none
 
 def run (atomic : Bool) (key : Call → K) (eval : Call → V) (s : State Call K V) :
